@@ -14,11 +14,12 @@ use std::panic::{AssertUnwindSafe, catch_unwind};
 use p3_circuit::ops::Poseidon2CircuitRow;
 use p3_field::PrimeCharacteristicRing;
 use p3_field::extension::BinomialExtensionField;
-use p3_koala_bear::{KoalaBear, default_koalabear_poseidon2_16, default_koalabear_poseidon2_32};
+use p3_koala_bear::{KoalaBear, default_koalabear_poseidon1_16, default_koalabear_poseidon2_16, default_koalabear_poseidon2_32};
+use p3_poseidon1_circuit_air::{Poseidon1CircuitAirKoalaBearD4Width16, Poseidon1CircuitRow};
 use p3_matrix::dense::RowMajorMatrix;
 use p3_poseidon2_circuit_air::{
-    ARITY4_BIT_X_BIT2_IDX, ARITY4_BIT2_IDX, ARITY4_EXTRA_COLS, KoalaBearD4Width16, KoalaBearD4Width32, Poseidon2CircuitAirKoalaBearD4Width16,
-    Poseidon2CircuitAirKoalaBearD4Width32, extract_preprocessed_from_operations,
+    ARITY4_BIT_X_BIT2_IDX, ARITY4_BIT2_IDX, ARITY4_EXTRA_COLS, KoalaBearD1Width16, KoalaBearD4Width16, KoalaBearD4Width32, Poseidon2CircuitAirKoalaBearD1Width16,
+    Poseidon2CircuitAirKoalaBearD4Width16, Poseidon2CircuitAirKoalaBearD4Width32, extract_preprocessed_from_operations,
 };
 use p3_symmetric::Permutation;
 use p3_test_utils::air_satisfaction::check_air_satisfies;
@@ -78,19 +79,39 @@ fn op_rows(plan: &Plan, arity: usize, permute: &dyn Fn(&[F]) -> Vec<F>, rng: &mu
     out
 }
 
-fn build(arity: usize, rows: &[Poseidon2CircuitRow<F>]) -> Result<(RowMajorMatrix<F>, Box<dyn Fn(&RowMajorMatrix<F>) -> Result<(), String>>), String> {
+fn build(arity: usize, variant: &str, rows: &[Poseidon2CircuitRow<F>]) -> Result<(RowMajorMatrix<F>, Box<dyn Fn(&RowMajorMatrix<F>) -> Result<(), String>>), String> {
+    let short = |(r, e): (usize, String)| format!("row {r}: {}", e.chars().take(160).collect::<String>());
     if arity == 4 {
         let constants = KoalaBearD4Width32::round_constants();
         let prep = extract_preprocessed_from_operations::<8, 6, F, F>(rows, 4, 4);
         let air = Poseidon2CircuitAirKoalaBearD4Width32::new_with_preprocessed(constants.clone(), prep);
         let m = air.generate_trace_rows(rows, &constants, 0);
-        Ok((m, Box::new(move |t| check_air_satisfies::<F, EF, _>(&air, t, &[]).map_err(|(r, e)| format!("row {r}: {}", e.chars().take(160).collect::<String>())))))
+        Ok((m, Box::new(move |t| check_air_satisfies::<F, EF, _>(&air, t, &[]).map_err(short))))
+    } else if variant == "p2d1" {
+        // compact D = 1 layout: 16 one-element limbs, rate 8
+        let rows: Vec<Poseidon2CircuitRow<F>> = rows.iter().map(|r| Poseidon2CircuitRow { in_ctl: vec![false; 16], input_indices: vec![0; 16], out_ctl: vec![false; 8], output_indices: vec![0; 8], ..r.clone() }).collect();
+        let constants = KoalaBearD1Width16::round_constants();
+        let prep = extract_preprocessed_from_operations::<16, 8, F, F>(&rows, 1, 1);
+        let air = Poseidon2CircuitAirKoalaBearD1Width16::new_with_preprocessed(constants.clone(), prep);
+        let m = air.generate_trace_rows(&rows, &constants, 0);
+        Ok((m, Box::new(move |t| check_air_satisfies::<F, EF, _>(&air, t, &[]).map_err(short))))
+    } else if variant == "p1d4" {
+        let rows: Vec<Poseidon1CircuitRow<F>> = rows
+            .iter()
+            .map(|r| Poseidon1CircuitRow { new_start: r.new_start, merkle_path: r.merkle_path, mmcs_bit: r.mmcs_bit, mmcs_index_sum: r.mmcs_index_sum, input_values: r.input_values.clone(),
+                in_ctl: r.in_ctl.clone(), input_indices: r.input_indices.clone(), out_ctl: r.out_ctl.clone(), output_indices: r.output_indices.clone(), mmcs_index_sum_idx: r.mmcs_index_sum_idx, mmcs_ctl_enabled: r.mmcs_ctl_enabled })
+            .collect();
+        let (full, partial) = p3_poseidon1_circuit_air::KoalaBearD4Width16::round_constants();
+        let prep = p3_poseidon1_circuit_air::extract_preprocessed_from_operations::<4, 2, F, F>(&rows, 4, 4);
+        let air = Poseidon1CircuitAirKoalaBearD4Width16::new_with_preprocessed(full.clone(), partial.clone(), prep);
+        let m = air.generate_trace_rows(&rows, &full, &partial, 0);
+        Ok((m, Box::new(move |t| check_air_satisfies::<F, EF, _>(&air, t, &[]).map_err(short))))
     } else {
         let constants = KoalaBearD4Width16::round_constants();
         let prep = extract_preprocessed_from_operations::<4, 2, F, F>(rows, 4, 4);
         let air = Poseidon2CircuitAirKoalaBearD4Width16::new_with_preprocessed(constants.clone(), prep);
         let m = air.generate_trace_rows(rows, &constants, 0);
-        Ok((m, Box::new(move |t| check_air_satisfies::<F, EF, _>(&air, t, &[]).map_err(|(r, e)| format!("row {r}: {}", e.chars().take(160).collect::<String>())))))
+        Ok((m, Box::new(move |t| check_air_satisfies::<F, EF, _>(&air, t, &[]).map_err(short))))
     }
 }
 
@@ -105,7 +126,7 @@ fn cols(arity: usize, w: usize) -> (usize, Option<usize>, Option<usize>, usize) 
 }
 
 /// Ok(None) = accepted, Ok(Some(msg)) = rejected
-pub fn run_case(arity: usize, pos: usize, dev: &str, rng: &mut StdRng) -> Result<Option<String>, String> {
+pub fn run_case(arity: usize, variant: &str, pos: usize, dev: &str, rng: &mut StdRng) -> Result<Option<String>, String> {
     const T: usize = 2; // the row under test
     let all_digest = matches!(dev, "bit-2" | "bit2-2" | "prod");
     let plan = Plan {
@@ -113,7 +134,13 @@ pub fn run_case(arity: usize, pos: usize, dev: &str, rng: &mut StdRng) -> Result
     };
     let p16 = default_koalabear_poseidon2_16();
     let p32 = default_koalabear_poseidon2_32();
-    let permute: Box<dyn Fn(&[F]) -> Vec<F>> = if arity == 4 {
+    let q16 = default_koalabear_poseidon1_16();
+    let permute: Box<dyn Fn(&[F]) -> Vec<F>> = if variant == "p1d4" {
+        Box::new(move |x: &[F]| {
+            let a: [F; 16] = x.try_into().unwrap();
+            q16.permute(a).to_vec()
+        })
+    } else if arity == 4 {
         Box::new(move |x: &[F]| {
             let a: [F; 32] = x.try_into().unwrap();
             p32.permute(a).to_vec()
@@ -125,7 +152,7 @@ pub fn run_case(arity: usize, pos: usize, dev: &str, rng: &mut StdRng) -> Result
         })
     };
     let rows = op_rows(&plan, arity, &*permute, rng);
-    let (mut m, verdict) = build(arity, &rows)?;
+    let (mut m, verdict) = build(arity, variant, &rows)?;
     let w = m.width;
     let (cb, cb2, cp, cs) = cols(arity, w);
     let a = F::from_u64(arity as u64);
@@ -185,9 +212,12 @@ pub fn cmd(args: &[String]) -> i32 {
         let c: Value = serde_json::from_str(&l).expect("case");
         let (arity, pos, dev) = (c["arity"].as_u64().unwrap() as usize, c["pos"].as_u64().unwrap() as usize, c["dev"].as_str().unwrap().to_string());
         let (model_accepts, in_relation) = (c["model_accepts"].as_bool().unwrap(), c["in_relation"].as_bool().unwrap());
+        let variants: &[&str] = if arity == 4 { &["p2d4"] } else { &["p2d4", "p2d1", "p1d4"] };
+        for (vi, variant) in variants.iter().enumerate() {
+        let vname = match *variant { "p2d1" => "poseidon2-d1-compact", "p1d4" => "poseidon1", _ => "poseidon2" };
         for rep in 0..reps {
-            let mut rng = seeded(seed, i as u64 * 100 + rep);
-            let r = catch_unwind(AssertUnwindSafe(|| run_case(arity, pos, &dev, &mut rng))).unwrap_or_else(|_| Err("panic".into()));
+            let mut rng = seeded(seed, i as u64 * 100 + rep + 1000 * vi as u64);
+            let r = catch_unwind(AssertUnwindSafe(|| run_case(arity, variant, pos, &dev, &mut rng))).unwrap_or_else(|_| Err("panic".into()));
             *stats.entry("cases".into()).or_default() += 1;
             match r {
                 Err(e) => errors.push(format!("{e}: {c}")),
@@ -201,18 +231,19 @@ pub fn cmd(args: &[String]) -> i32 {
                         *stats.entry("model_drift".into()).or_default() += 1;
                     }
                     if accepted && !in_relation {
-                        let shape = if dev == "start-sum" { format!("arity{arity}+chain-start-accumulator") } else { format!("arity{arity}+{dev}+position{pos}") };
+                        let shape = if dev == "start-sum" { format!("arity{arity}+chain-start-accumulator+{vname}") } else { format!("arity{arity}+{dev}+position{pos}+{vname}") };
                         let e = groups.entry(("invalid-row-accepted".into(), shape)).or_insert((0, json!({"case": c, "code": "accepted", "expected": "rejected"})));
                         e.0 += 1;
                     } else if !accepted && in_relation {
-                        let e = groups.entry(("honest-row-rejected".into(), format!("arity{arity}+position{pos}"))).or_insert((0, json!({"case": c, "code": v, "expected": "accepted"})));
+                        let e = groups.entry(("honest-row-rejected".into(), format!("arity{arity}+position{pos}+{vname}"))).or_insert((0, json!({"case": c, "code": v, "expected": "accepted"})));
                         e.0 += 1;
                     }
                 }
             }
         }
+        }
     }
-    let findings: Vec<Value> = groups.into_iter().map(|((k, s), (n, d))| json!({"property": "C11", "kind": k, "signature": format!("{k}@poseidon2-merkle-row+{s}"), "count": n, "example": d})).collect();
+    let findings: Vec<Value> = groups.into_iter().map(|((k, s), (n, d))| json!({"property": "C11", "kind": k, "signature": format!("{k}@poseidon-merkle-row+{s}"), "count": n, "example": d})).collect();
     println!("{}", serde_json::to_string_pretty(&json!({"stats": stats, "findings": findings, "model_drift_examples": drift, "errors": errors, "samples": []})).unwrap());
     0
 }
